@@ -680,3 +680,93 @@ pub fn bulk(rep: &mut Report, opts: &Opts, prop: &'static str) {
         }
     }
 }
+
+// ------------------------------------------------------------------ bulk cancellation (C09)
+
+/// Thousands of cancelled actions in a row at the head of the scheduler queue
+/// (keyed model events and keyed `EventSource` actions, one-shot and periodic,
+/// each at its own time or all at one time), then one live action. Oracle: no
+/// cancelled action runs, `step()` goes straight to the live action's time.
+pub fn bulk_cancel_case(seed: u64, threads: usize) -> Result<u64, (String, String)> {
+    use nexosim::ports::EventSource;
+    let mut rng = Rng::new(seed);
+    rec::reset(&Default::default());
+    let n = if cfg!(miri) { 30 } else { *rng.pick(&[100u64, 1024, 1025, 2000, 3000]) };
+    let log = Arc::new(Mutex::new(Vec::new()));
+    let mb: Mailbox<BulkRx> = Mailbox::new();
+    let addr = mb.address();
+    let (mut simu, sched) = SimInit::with_num_threads(threads).add_model(BulkRx { log: log.clone() }, mb, "rx").init(MonotonicTime::EPOCH).map_err(|e| ("C09/bulk-init-failed".to_string(), format!("{:?}", e)))?;
+    let mut src: EventSource<u64> = EventSource::new();
+    src.connect(BulkRx::on, &addr);
+    let same_time = rng.chance(1, 3);
+    let via = rng.below(3); // 0 model events, 1 source actions, 2 mixed
+    let mut keys = Vec::new();
+    for i in 0..n {
+        let t = std::time::Duration::from_secs(if same_time { 1 } else { 1 + i });
+        let use_source = via == 1 || (via == 2 && i % 2 == 0);
+        let periodic = rng.chance(1, 5);
+        let key = match (use_source, periodic) {
+            (false, false) => sched.schedule_keyed_event(t, BulkRx::on, i, &addr).unwrap(),
+            (false, true) => sched.schedule_keyed_periodic_event(t, std::time::Duration::from_secs(7), BulkRx::on, i, &addr).unwrap(),
+            (true, false) => {
+                let (a, k) = src.keyed_event(i);
+                sched.schedule(t, a).unwrap();
+                k
+            }
+            (true, true) => {
+                let (a, k) = src.keyed_periodic_event(std::time::Duration::from_secs(7), i);
+                sched.schedule(t, a).unwrap();
+                k
+            }
+        };
+        keys.push(key);
+    }
+    let live_t = 10 * n + 5;
+    sched.schedule_event(std::time::Duration::from_secs(live_t), BulkRx::on, u64::MAX, &addr).unwrap();
+    for (i, k) in keys.into_iter().enumerate() {
+        if i % 2 == 0 {
+            k.cancel();
+        } else {
+            drop(k.into_auto());
+        }
+    }
+    rec::in_call(true);
+    let r = simu.step();
+    rec::in_call(false);
+    let what = format!("{} cancelled keyed actions ({}; {}) followed by one live action at t0+{}s, {} executor thread(s)", n, ["model events", "EventSource actions", "model events and EventSource actions"][via as usize], if same_time { "all due at t0+1s" } else { "one per second" }, live_t, threads);
+    if let Err(e) = r {
+        return Err(("C09/bulk-step-failed".into(), format!("{}: step() returned {:?}", what, e)));
+    }
+    let got = log.lock().unwrap().clone();
+    let t = crate::bench::to_ns(simu.time());
+    let ran: Vec<u64> = got.iter().filter(|e| e.0 != u64::MAX).map(|e| e.0).take(5).collect();
+    if !ran.is_empty() {
+        return Err(("C09/cancelled-action-executed".into(), format!("{}: cancelled actions {:?} were executed", what, ran)));
+    }
+    if got != vec![(u64::MAX, live_t * 1_000_000_000)] || t != live_t * 1_000_000_000 {
+        return Err(("C09/step-stopped-at-a-cancelled-action".into(), format!("{}: step() left the time at {} ns having run {:?}; it must discard every cancelled action and run the live one at its deadline", what, t, got)));
+    }
+    drop(simu);
+    Ok(n)
+}
+
+pub fn bulk_cancel(rep: &mut Report, opts: &Opts) {
+    let cases = if cfg!(miri) { 2 } else { opts.n(96, 2400) };
+    let base = h2(opts.seed, 0xB09C);
+    for case in 0..cases {
+        if !opts.mine(case) {
+            continue;
+        }
+        let cs = h2(base, case);
+        let threads = if cfg!(miri) { 1 + (case % 2) as usize } else { [1usize, 1, 2, 4][(case % 4) as usize] };
+        rep.evaluations += 1;
+        match bulk_cancel_case(cs, threads) {
+            Ok(n) => {
+                rep.count("bulk_cancelled_actions_checked", n);
+                rep.count("cancellations", n);
+                rep.distinct.insert(h2(cs, 9));
+            }
+            Err((sig, detail)) => rep.violation(sig, format!("[bulk] {}", detail), opts.replay_args("bulk", case)),
+        }
+    }
+}
